@@ -220,6 +220,24 @@ def _(rng, v, extra):
 	return copy.deepcopy(v)
 
 
+@deriv("Table() >> t", "table")
+def _(rng, t, extra):
+	return Table() >> t
+
+
+@deriv("empty join result >> t", "table")
+def _(rng, t, extra):
+	empty = t.inner_join(Table({"k": [-12345]}), "a", "k", expect="many_to_many")
+	if len(empty.cols()):
+		raise ValueError("not a zero-column table")
+	return empty >> t
+
+
+@deriv("Table() << t", "table")
+def _(rng, t, extra):
+	return Table() << t
+
+
 @deriv("window", "table")
 def _(rng, t, extra):
 	return t.window(over="c", sum_over="a", apply={"n": ("b", len)})
@@ -510,6 +528,16 @@ def run_pair(chk, spec):
 	extra = {"w": Vector(V.column(rng, "int", n, "none", small=True), name="w"), "t": base_table(rng, n),
 		"t2": Table({"k": V.column(rng, "int", n, "none", small=True), "z": V.column(rng, "str", n, "none", small=True)})}
 	src = Vector(V.column(rng, "int", n, rng.choice(["none", "none", "low"]), small=True), name="src") if srckind == "vector" else base_table(rng, n)
+	if spec.get("object_src"):
+		# a mixed (object-typed), non-nullable source: None written into one object must not make a bystander nullable
+		import warnings
+		with warnings.catch_warnings():
+			warnings.simplefilter("ignore")
+			mixed = [[1, "a", 2.5, b"b", (1,)][i % 5] for i in range(n)]
+			if srckind == "vector":
+				src = Vector(list(mixed), name="src")
+			else:
+				src = Table({"a": list(mixed), "b": V.column(rng, "float", n, "none", small=True), "c": V.column(rng, "str", n, "none", small=True)})
 	if spec.get("stale") and srckind == "vector" and len(src):
 		# the source's dtype says nullable although no None is left in it (a None was stored and overwritten)
 		x0 = src._underlying[0]
@@ -588,6 +616,43 @@ def run_pair(chk, spec):
 			if M.snap_vector(dn) != b2:
 				chk.fail("a vector assigned into a table as a column is not changed by writes to the table", f"frame/write/{w}/donor-follows-table", f"{dname} / {w}: donor changed after a write to the table column")
 
+PURE_CELL_OPS = {
+	"sum": lambda v, t: v.sum(), "max": lambda v, t: v.max(), "min": lambda v, t: v.min(), "unique": lambda v, t: v.unique(), "v+v": lambda v, t: v + v.copy(), "v*2": lambda v, t: v * 2,
+	"v+scalar": lambda v, t: v + v._underlying[0], "radd": lambda v, t: v._underlying[0] + v, "v==v": lambda v, t: v == v.copy(), "sort": lambda v, t: v.sort_by(), "repr": lambda v, t: repr(v),
+	"fingerprint": lambda v, t: v.fingerprint(), "fillna": lambda v, t: v.fillna(v._underlying[0]), "dropna": lambda v, t: v.dropna(), "cast-str": lambda v, t: v.cast(str), "lshift": lambda v, t: v << v.copy(),
+	"agg-sum": lambda v, t: t.aggregate(over="k", sum_over="c"), "agg-minmax": lambda v, t: t.aggregate(over="k", min_over="c", max_over="c", count_over="c"),
+	"agg-apply-sum": lambda v, t: t.aggregate(over="k", apply={"s": ("c", lambda xs: sum(xs[1:], xs[0]) if len(xs) else None)}), "win-sum": lambda v, t: t.window(over="k", sum_over="c"),
+	"win-minmax": lambda v, t: t.window(over="k", min_over="c", max_over="c"), "t-sort": lambda v, t: t.sort_by("k"), "t-join": lambda v, t: t.join(t.copy(), "k", "k", expect="many_to_many"),
+	"t-repr": lambda v, t: repr(t), "t-T": lambda v, t: t.T, "t-rowsum": lambda v, t: [r.sum() for r in t["c", "c2"]], "t-fingerprint": lambda v, t: t.fingerprint(), "t+t": lambda v, t: t["c", "c2"] + t["c2", "c"],
+	"pluck": lambda v, t: v.pluck(0), "len": lambda v, t: v.len() if hasattr(v, "len") else None, "iter-rows": lambda v, t: [tuple(r) for r in t], "t-mask": lambda v, t: t[[True] * len(t)],
+}
+CELL_MAKERS = {
+	"list": lambda i: [i, i + 1], "bytearray": lambda i: bytearray([65 + i % 20, 66]), "dict": lambda i: {"k": i, "m": [i]}, "set": lambda i: {i, i + 100}, "list-of-list": lambda i: [[i], [i, i]],
+}
+
+
+def run_pure_cells(chk, spec):
+	"""read-only operations over cells that CAN be changed in place (lists, bytearrays, dicts, sets): the cells the operands hold afterwards are, deep down,
+	the cells they held before (a reduction that folds with += rewrites the first cell of its operand)"""
+	import copy, warnings
+	mk = CELL_MAKERS[spec["cell"]]
+	n = spec["n"]
+	cells = [mk(i) for i in range(n)]
+	v = Vector(list(cells), name="c")
+	t = Table([Vector([["x", "y"][i % 2] for i in range(n)], name="k"), Vector([mk(i) for i in range(n)], name="c"), Vector([mk(i + 7) for i in range(n)], name="c2")])
+	holders = {"vector": v, "table": t, "slice": v[0:n], "table-copy": t.copy()}
+	before = {k: M.snap_any(o) for k, o in holders.items()}
+	with warnings.catch_warnings():
+		warnings.simplefilter("ignore")
+		o = call(PURE_CELL_OPS[spec["op"]], v, t)
+	chk.judged("pair", ("pure-cells", spec["op"], spec["cell"], n, o.ok))
+	for k, obj in holders.items():
+		now = M.snap_any(obj)
+		if now != before[k]:
+			chk.fail("operations that return a new object never change their operands", f"frame/operation-changed-operand-cells/{spec['op']}/{spec['cell']}",
+				f"{spec!r}: after {spec['op']} ({'ok' if o.ok else repr(o)}) the {k} holds {short(now, 200)}; before {short(before[k], 200)}")
+			return
+
 
 def run_history(chk, spec):
 	m = pool.Machine(chk, spec["seed"], spec["nsteps"], spec.get("profile", "mixed"))
@@ -597,7 +662,7 @@ def run_history(chk, spec):
 		chk.counters["history_steps"] += len(m.trace)
 
 
-RUNNERS = {"refusal": run_refusal, "pair": run_pair, "history": run_history, "recompute": recompute.runner("C01")}
+RUNNERS = {"pure_cells": run_pure_cells, "refusal": run_refusal, "pair": run_pair, "history": run_history, "recompute": recompute.runner("C01")}
 
 def setup(chk):
 	pool.CENSUS.install()
@@ -606,6 +671,16 @@ def setup(chk):
 def run(chk):
 	recompute.add_cases(chk, "C01")
 	rng = chk.rng
+	for dname in ("copy", "slice", "mask", "T", "Table([v, w])", "t >> v", "select", "rowslice", "rowmask", "sort", "table-copy", "copy.copy(vector)", "copy.copy(table)"):
+		if dname not in DERIVS:
+			continue
+		for w in ("vec-none", "vec-int-scalar", "cell", "row"):
+			for side in ("source", "derived"):
+				chk.case("pair", {"deriv": dname, "write": w, "side": side, "seed": rng.randrange(10**9), "object_src": True}, "pair-object-source")
+	for op in PURE_CELL_OPS:
+		for cell in CELL_MAKERS:
+			for n in ((3,) if chk.quick() else (1, 3, 6)):
+				chk.case("pure_cells", {"op": op, "cell": cell, "n": n}, "pure-cells")
 	idx = 0
 	for dname in DERIVS:
 		for w in WRITES:
